@@ -33,7 +33,9 @@ RULE = ("random object trees (depth 0..4; cfg'd/plain/empty blocks; registers, c
 KNOWN_PATH = os.path.join(vlib.VERIF, "KNOWN_FINDINGS.jsonl")
 # mostly short bare-identifier predicates (the model's output is read back character by character: keep it small),
 # some key = "value" predicates
-ATOMS = ["fa", "fb", "fc", "fd", "fe", "ff", "fg", "unix", 'feature = "x"', 'target_os = "linux"']
+ATOMS = ["fa", "fb", "fc", "fd", "fe", "ff", "fg", "unix", 'feature = "x"', 'target_os = "linux"',
+         # a value with a blank in it and the value it would collapse into: two different predicates (seed C18-9)
+         'board = "rev a"', 'board = "reva"', 'board = "rev a"']
 D6_CLASS = ("object follows the end of two or more nested blocks at once (an empty block counts as a level): "
             "propagate_cfg pops its stack once, the object and everything after it in pre-order is gated by the cfg of a "
             "block that does not enclose it")
@@ -234,7 +236,8 @@ def _cfg(v):
 
 
 def strip_ws(s):
-    return re.sub(r"\s+", "", s)
+    """whitespace BETWEEN tokens removed; the inside of a string literal is part of the predicate (`board = "rev a"`)"""
+    return "".join(part if k % 2 else re.sub(r"\s+", "", part) for k, part in enumerate(re.split(r'("(?:[^"\\]|\\.)*")', s)))
 
 
 def mir_info(mir_text):
@@ -302,6 +305,51 @@ def key_owner(info, key):
 
 
 # ------------------------------------------------------------------ observations from the real token stream
+
+def written_atoms(d):
+    """every atomic predicate written anywhere in the abstract definition (all(..) flattened), blanks between tokens removed"""
+    out = set()
+
+    def add(c):
+        if not c:
+            return
+        c = c.strip()
+        m = re.fullmatch(r"all\s*\((.*)\)", c, flags=re.S)
+        if m:
+            depth, cur, parts, instr = 0, "", [], False
+            for ch in m.group(1):
+                if ch == '"':
+                    instr = not instr
+                if not instr and ch in "([":
+                    depth += 1
+                if not instr and ch in ")]":
+                    depth -= 1
+                if ch == "," and depth == 0 and not instr:
+                    parts.append(cur)
+                    cur = ""
+                else:
+                    cur += ch
+            parts.append(cur)
+            for p_ in parts:
+                add(p_)
+        else:
+            out.add(strip_ws(c))
+
+    def walk(objs):
+        for o in objs:
+            add(o.get("cfg"))
+            for _, fields in adef.field_sets(o):
+                for f in fields or []:
+                    add(f.get("cfg"))
+                    c = f.get("conv")
+                    if c and c["type"] == "enum":
+                        for v in c["variants"]:
+                            add(v.get("cfg"))
+            if o["kind"] == "block":
+                walk(o["objects"])
+    walk(d["objects"])
+    return out
+
 
 def canon_atoms(l):
     return tuple(sorted(set(strip_ws(a) for a in l)))
@@ -503,6 +551,13 @@ def compare(rec, status):
             d["object"] = ent["name"]
             d["extra_atoms"] = sorted(extra)
         (d6 if in_class else other).append(d)
+    if rec.get("written") is not None:
+        for (key, where, attr, eff, raw) in obs:
+            alien = [a for a in attr if a not in rec["written"]]
+            if alien:
+                other.append({"key": key, "where": where, "implementation": list(attr), "spec": sorted(rec["written"]),
+                              "what": f"the gate of an emitted item tests {alien[0]!r}, which is none of the predicates written in the definition"})
+                break
     return mm, d6, other, len(model)
 
 
@@ -587,6 +642,8 @@ def shrink(ctx, status, d, syntax, kind, budget_rounds=40):
         recs, err = evaluate(ctx, status, texts, "shrink")
         if err:
             break
+        for i, c in enumerate(cands):
+            recs["s%d" % i]["written"] = written_atoms(c)
         failing = [(len(texts[i][2]), i) for i in range(len(cands)) if failure_kind(recs["s%d" % i], status) == kind]
         if not failing:
             break
@@ -684,7 +741,11 @@ def run(ctx):
                 harness_bad.append((cid, "single_exits flag of the model disagrees with the python classification", None))
         if rec["warnings"]:
             hist["facts_warnings"] += 1
+        rec["written"] = written_atoms(d)
         mm, d6, other, nitems = compare(rec, status)
+        # (compare's) third opinion, from the ABSTRACT definition: the model and the spec are evaluated on the MIR of the real front
+        # end, so a predicate the front end (or Cfg::new) re-spells into another predicate is the same mistake on both sides
+        # (seed C18-9 dropped the blank of `board = "rev a"`).  Every atom of every emitted gate is an atom somebody wrote.
         items_total += nitems
         obs_total += len(rec["obs"])
         for key in rec["model"]:
@@ -707,6 +768,7 @@ def run(ctx):
         r2, _ = evaluate(ctx, status, [("r", syntax, text)], "final")
         det = details
         if r2 and r2["r"]["obs"] is not None and isinstance(r2["r"]["model"], dict):
+            r2["r"]["written"] = written_atoms(small)
             mm, d6, other, _ = compare(r2["r"], status)
             det = {"model_mismatches": mm[:8], "spec_violations": other[:8], "d6_class": d6[:4]}
         return {"what": what, "failing_input": {"syntax": syntax, "text": text, "adef": small},
@@ -801,6 +863,8 @@ def replay(ctx, path):
         ctx.log("not evaluable:", rec.get("model_error") or rec.get("message"))
         vlib.violation(ctx, {"failing_input": fi, "broken": "replay input not evaluable", "status": rec["status"]}, no_input=True)
         return
+    if fi.get("adef"):
+        rec["written"] = written_atoms(fi["adef"])
     mm, d6, other, n = compare(rec, status)
     for x in mm[:10]:
         ctx.log("MODEL-MISMATCH", json.dumps(x))
